@@ -352,7 +352,7 @@ func runHarness(ld *loaded, spec *Spec, hs HarnessSpec, trace bool) *HarnessResu
 	if file, ok := ld.fileOf[hs.Pkg+"."+hs.Func]; ok {
 		hasEnvReplace = bytes.Contains(ld.overlay[file], []byte("//verif:replace"))
 	}
-	if !spec.NoNative && !hasEnvReplace {
+	if !spec.NoNative {
 		for i := range r.Violations {
 			v := &r.Violations[i]
 			if i >= 5 {
@@ -365,7 +365,7 @@ func runHarness(ld *loaded, spec *Spec, hs HarnessSpec, trace bool) *HarnessResu
 		}
 	} else {
 		for i := range r.Violations {
-			r.Violations[i].ReplayNote = "harness uses environment replacements: replay is through the public-API scenario"
+			r.Violations[i].ReplayNote = "native replay disabled for this run"
 		}
 	}
 	if hs.Validate > 0 && !spec.NoNative && !hasEnvReplace {
@@ -412,6 +412,8 @@ func vObserveBytes(tag string, v []byte) { panic("verif intrinsic") }
 func vTry(f func()) bool               { panic("verif intrinsic") }
 func vOverlap(a, b []byte) bool        { panic("verif intrinsic") }
 func vLearnBits(x uint64, w int)       { panic("verif intrinsic") }
+func vReplayVal(tag string, k int) (uint64, bool) { panic("verif intrinsic: native scenarios only") }
+func vWithTimeout(f func(), seconds int) bool     { panic("verif intrinsic: native scenarios only") }
 `
 
 func replayDir(spec *Spec) string {
@@ -429,6 +431,7 @@ func replayMain(path string) int {
 	}
 	var cx struct {
 		Pkg, Harness, Kind, Msg, Where string
+		NativeFunc                     string `json:"native_func"`
 		Nondets                        []NondetRec
 		Tier                           int
 	}
